@@ -270,6 +270,21 @@ def _eval_names(program: Program, recv: ClassInfo, f: FuncInfo, expr: ast.expr) 
         orig = getattr(f, "inlined_from", f)
         fr = Frame(orig, recv, o, orig.module)
         fr.env[orig.params[0]] = o
+        # locals bound once at the top of the method to the receiver's class (`cls = type(self)`) are read through
+        import copy as _copy
+        binds = {}
+        for st in orig.node.body:
+            if (isinstance(st, ast.Assign) and len(st.targets) == 1 and isinstance(st.targets[0], ast.Name)
+                    and sum(1 for n in ast.walk(orig.node) if isinstance(n, ast.Name) and n.id == st.targets[0].id and isinstance(n.ctx, ast.Store)) == 1):
+                v_ = st.value
+                if (isinstance(v_, ast.Call) and isinstance(v_.func, ast.Name) and v_.func.id == "type" and len(v_.args) == 1 and isinstance(v_.args[0], ast.Name)
+                        and v_.args[0].id == orig.params[0]) or (isinstance(v_, ast.Attribute) and v_.attr == "__class__" and isinstance(v_.value, ast.Name) and v_.value.id == orig.params[0]):
+                    binds[st.targets[0].id] = v_
+        if binds and any(isinstance(n, ast.Name) and n.id in binds for n in ast.walk(expr)):
+            class _S(ast.NodeTransformer):
+                def visit_Name(self, n):
+                    return ast.copy_location(_copy.deepcopy(binds[n.id]), n) if n.id in binds and isinstance(n.ctx, ast.Load) else n
+            expr = ast.fix_missing_locations(_S().visit(_copy.deepcopy(expr)))
         v = ev.consume_lazy(ev.eval(expr, fr))
     except AnalysisError:
         return None
@@ -419,13 +434,34 @@ def check_decorator(program: Program, run: Run) -> None:
     recv = w.args.args[0].arg
     copyvar = None
     guarded_default_true = False
+
+    def _names_copy(fn) -> bool:
+        """the callee is copy.copy: `copy.copy`, `copy` imported from the copy module under any name, or a closure
+        variable of the decorator bound once to one of these"""
+        if isinstance(fn, ast.Attribute):
+            return fn.attr == "copy"
+        if not isinstance(fn, ast.Name):
+            return False
+        nm = fn.id
+        for _ in range(3):
+            b = [st for st in ast.walk(f.node) if isinstance(st, ast.Assign) and len(st.targets) == 1 and isinstance(st.targets[0], ast.Name) and st.targets[0].id == nm]
+            if len(b) == 1 and isinstance(b[0].value, ast.Attribute):
+                return b[0].value.attr == "copy"
+            if len(b) == 1 and isinstance(b[0].value, ast.Name):
+                nm = b[0].value.id
+                continue
+            break
+        if nm == "copy":
+            return True
+        imp = f.module.imports.get(nm)
+        return bool(imp and imp[0] == "copy" and imp[1] == "copy")
+
     for n in ast.walk(w):
         if isinstance(n, ast.Assign) and isinstance(n.targets[0], ast.Name):
             v = n.value
             cands = [v] if not isinstance(v, ast.IfExp) else [v.body, v.orelse]
             for c in cands:
-                if (isinstance(c, ast.Call) and ((isinstance(c.func, ast.Attribute) and c.func.attr == "copy")
-                                                 or (isinstance(c.func, ast.Name) and c.func.id == "copy"))
+                if (isinstance(c, ast.Call) and _names_copy(c.func)
                         and c.args and isinstance(c.args[0], ast.Name) and c.args[0].id == recv):
                     copyvar = n.targets[0].id
                     if isinstance(v, ast.IfExp):
@@ -438,7 +474,7 @@ def check_decorator(program: Program, run: Run) -> None:
                     else:
                         guarded_default_true = True
     def _is_copy_of_recv(c):
-        return (isinstance(c, ast.Call) and ((isinstance(c.func, ast.Attribute) and c.func.attr == "copy") or (isinstance(c.func, ast.Name) and c.func.id == "copy"))
+        return (isinstance(c, ast.Call) and _names_copy(c.func)
                 and c.args and isinstance(c.args[0], ast.Name) and c.args[0].id == recv)
 
     def _is_flag_test(t):
